@@ -13,7 +13,7 @@ C09  Genotype summary statistics are exact and mutually consistent   (R5/R6 are 
 """
 import ast
 
-from sa.astutil import dump, where, kwargs_of, walk_no_nested, field_of, is_const
+from sa.astutil import dump, where, kwargs_of, walk_no_nested, field_of, is_const, if_chain
 from sa.model import AnalysisError, body_nodoc
 from sa.vn import VN, Poly, parse_expr, VNUnknown, comparable
 from sa.taint import InexactTaint
@@ -112,19 +112,17 @@ def check_definitions(prog, rep, K):
         rep.saw(f)
         construct = "%s.mat_asformat" % K.qualname
         dosage = ["self.mat", "self.mat.copy()"] if K.name == "DenseGenotypeMatrix" else ["self.mat.sum(0)", "self.mat.sum(self.phase_axis)"]
-        node = [s for s in body_nodoc(f.node) if isinstance(s, ast.If)]
+        fbody = body_nodoc(f.node)
+        first = [k for k, s_ in enumerate(fbody) if isinstance(s_, ast.If)]
         seen = {}
-        cur = node[0] if node else None
-        while cur is not None:
-            t = cur.test
+        for t, bbody, _n in (if_chain(fbody, first[0])[0] if first else []):
             fmt = t.comparators[0].value if isinstance(t, ast.Compare) and isinstance(t.comparators[0], ast.Constant) else None
             try:
                 vn = VN(prog, f)
-                val = vn.run(cur.body)
+                val = vn.run(bbody)
                 seen[fmt] = val
             except VNUnknown:
                 seen[fmt] = None
-            cur = cur.orelse[0] if len(cur.orelse) == 1 and isinstance(cur.orelse[0], ast.If) else None
         dref = [VN(prog, f).expr(ast.parse(d, mode="eval").body) for d in dosage]
         for fmt, shift in (("{0,1,2}", 0), ("{-1,0,1}", -1)):
             v = seen.get(fmt)
